@@ -189,21 +189,37 @@ def _mentions_only(e, nm, is_int):
 
 
 def uncompress_summary(repo):
-    """kind -> 'INT' | 'STR' for helpers.uncompress(token)."""
+    """kind -> 'INT' | 'STR' for helpers.uncompress(token): INT only if
+    *every* return that can be taken for that kind is a call of a reader
+    that provably returns an int (a return outside the per-kind arms - an
+    early exit, a fall-through - counts for every kind)."""
+    from ..flow import path_conditions
     mod = repo.mod("helpers")
     fn = mod.function("uncompress")
+    rets = []  # (is_int, positive kind or None, kinds excluded on the path)
+    kinds_seen = set()
+    for r in ast.walk(fn):
+        if not isinstance(r, ast.Return):
+            continue
+        is_int = isinstance(r.value, ast.Call) and returns_int(
+            mod, (dotted(r.value.func) or "").split(".")[-1])
+        pos, neg = None, set()
+        for test, pol in path_conditions(r, fn):
+            if isinstance(test, ast.Compare) and len(test.ops) == 1 \
+                    and isinstance(test.ops[0], (ast.Eq, ast.Is)):
+                d = dotted(test.comparators[0]) or ""
+                if "TokenType." in d:
+                    kinds_seen.add(d.split(".")[-1])
+                    if pol:
+                        pos = d.split(".")[-1]
+                    else:
+                        neg.add(d.split(".")[-1])
+        rets.append((is_int, pos, neg))
     out = {}
-    for st in fn.body:
-        if isinstance(st, ast.If) and isinstance(st.test, ast.Compare):
-            r = dotted(st.test.comparators[0]) or ""
-            if "TokenType." not in r:
-                continue
-            kind = r.split(".")[-1]
-            for b in st.body:
-                if isinstance(b, ast.Return) and isinstance(
-                        b.value, ast.Call):
-                    callee = (dotted(b.value.func) or "").split(".")[-1]
-                    out[kind] = "INT" if returns_int(mod, callee) else "STR"
+    for kind in kinds_seen:
+        vals = [i for i, pos, neg in rets
+                if pos == kind or (pos is None and kind not in neg)]
+        out[kind] = "INT" if vals and all(vals) else "STR"
     return out
 
 
